@@ -25,6 +25,11 @@ import (
 const (
 	maxArrayLen      = 1024 * 1024
 	maxBulkStringLen = 1024 * 1024 * 512
+	// maxArrayDepth limits the nesting of arrays, the decoder is recursive.
+	maxArrayDepth = 128
+	// maxArrayPrealloc limits the number of elements which are allocated
+	// before they have actually been received.
+	maxArrayPrealloc = 1024
 )
 
 var (
@@ -38,6 +43,8 @@ var (
 	ErrBadArrayLen = errors.New("bad array len")
 	// ErrBadArrayLenTooLong too long array len
 	ErrBadArrayLenTooLong = errors.New("bad array len, too long")
+	// ErrBadArrayTooDeep too deeply nested array
+	ErrBadArrayTooDeep = errors.New("bad array, nested too deep")
 
 	// ErrBadBulkStringLen for invalid bulk string len
 	ErrBadBulkStringLen = errors.New("bad bulk string len")
@@ -59,8 +66,9 @@ const (
 var CRLF = []byte{CR, LF}
 
 type decoder struct {
-	br  *Reader
-	err error
+	br    *Reader
+	err   error
+	depth int // current nesting level of arrays
 }
 
 func newDecoder(r io.Reader, bufSize int) *decoder {
@@ -231,13 +239,25 @@ func (d *decoder) decodeArray() ([]RespValue, error) {
 	case n == -1:
 		return nil, nil
 	}
-	array := make([]RespValue, n)
-	for i := range array {
+	// Neither the stack nor the memory used may depend on what the peer merely
+	// announces: limit the recursion and grow the array as elements arrive.
+	if d.depth >= maxArrayDepth {
+		return nil, ErrBadArrayTooDeep
+	}
+	d.depth++
+	defer func() { d.depth-- }()
+
+	prealloc := int(n)
+	if prealloc > maxArrayPrealloc {
+		prealloc = maxArrayPrealloc
+	}
+	array := make([]RespValue, 0, prealloc)
+	for i := 0; i < int(n); i++ {
 		r, err := d.decode()
 		if err != nil {
 			return nil, err
 		}
-		array[i] = *r
+		array = append(array, *r)
 	}
 	return array, nil
 }
